@@ -1,33 +1,37 @@
 (* Base/FloatDue.v - the FLOAT due-test of Track.tick decides like the EXACT one.
 
-   Track.tick (non-interpolating branch):
-       while round(self.current_time, 8) >= round(self.next_event_time, 8):
+   Track.tick (non-interpolating branch), after the repair 9bb39e5:
+       while round(self.current_time - self.next_event_time, 8) >= 0:
            self.current_event = self.get_next_event()
            self.next_event_time += float(self.current_event.duration)
+   before it (the REFUTED test):   while round(self.current_time, 8) >= round(self.next_event_time, 8):
    current_time = RN (k / tpb) at tick k (Base/FloatGrid.v, grid_run_exact); next_event_time starts at the track's start
    time and accumulates the float durations, one correctly rounded binary64 addition per event.
 
    Modelling assumptions (stated, not proved - they are facts about CPython on IEEE-754 hardware):
      (M1) every float operation is ONE correctly rounded binary64 operation (RN, as in FloatGrid.v);
      (M2) float(duration) is the double nearest to the real duration D:  RN D;
-     (M3) Python's round(x, 8) of a double x is correctly rounded: CPython's float.__round__ (Objects/floatobject.c,
-          double_round, the dtoa-based version every mainstream build uses) converts the EXACT binary value of x to the
-          decimal with 8 fractional digits by round-half-even (_Py_dg_dtoa mode 3) and converts that decimal string back
-          to the nearest double (_Py_dg_strtod).  Hence
+     (M3) Python's round(x, 8) of a double x is correctly rounded (Base/FloatRound8.v):
               py_round8 x = RN (IZR (ZnearestE (x * 10^8)) / 10^8).
 
    Contents
      1. units8_compare      comparing two py_round8 values = comparing the integer numbers of 1e-8 units (|units| <= 2^52)
      2. fsum_error(_closed) error of the accumulated next_event_time: <= (j+1) * (2^-53 + 2^-73) * T after j additions
-     3. due_float_exact     the float decision equals the exact rational one, under explicit hypotheses
+     3. due_float_exact     REFUTED test: the float decision equals the exact rational one only under no_tie
         tie_needs_512       the only exact decimal ties on the tick grid need 512 | tpb
-        tie_sharp_512       ... and for tpb = 512 the abstract statement really fails (the defect is real: docs/FLOAT.md)
-     4. float_due_is_exact_due, while_agree, run_agree   the project's corollaries: same decision for all k, j; same
-        number of iterations of the while loop on every tick; same consumed-event count after every tick.
+        tie_sharp_512       ... and for tpb = 512 the statement really fails; the real code lost events (docs/FLOAT.md):
+                            this is why the code was changed
+     3'. due'_float_exact   REPAIRED test: float decision = exact decision for EVERY tpb, 2 U <= 10^8, 6 * 10^8 * E <= 1
+     4. any_while_agree ... generic: a float test that decides like the exact one runs like the model
+        float_due'_is_exact_due, while_agree', run_agree_src', consumed_agree'   (repaired test, grid_setting + budget)
+        float_due_is_exact_due, while_agree, run_agree_src, consumed_agree       (refuted test, needs tpb mod 512 <> 0)
+     5. run'_float_exact, while'_float_exact, consumed'_float_exact, due'_index_float_exact: the statements for
+        [admissible'] (all tpb <= 2^20); run_float_exact_refuted_test for [admissible]
+     6. satisfiability: admissible'_ticks, admissible'_512, admissible'_2560, due'_2560, admissible_480
    Print Assumptions at the end. *)
 From Coq Require Import ZArith Reals Lra Lia List Znumtheory.
 From Flocq Require Import Core Relative.
-From Isobar Require Import Base.FloatGrid.
+From Isobar Require Import Base.FloatGrid Base.FloatRound8.
 Import ListNotations.
 Open Scope R_scope.
 
@@ -77,11 +81,7 @@ Proof. change (/ 1073741824) with (bpow radix2 (-30)). apply bpow_le. lia. Qed.
 
 (** * 1. round(., 8): comparing the rounded doubles = comparing the numbers of 1e-8 units *)
 
-Definition units8 (x : R) : Z := ZnearestE (x * 10 ^ 8).
-Definition py_round8 (x : R) : R := RN (IZR (units8 x) / 10 ^ 8).
-
-Lemma e8_val : 10 ^ 8 = 100000000.
-Proof. simpl. lra. Qed.
+(* units8 x = ZnearestE (x * 10^8), py_round8 x = RN (IZR (units8 x) / 10^8), e8_val: Base/FloatRound8.v *)
 
 (* consecutive multiples of 1e-8 below 2^52 * 1e-8 (45035996 beats) are distinct doubles *)
 Lemma RN_units_step_pos n : (0 <= n < 2 ^ 52)%Z -> RN (IZR n / 10 ^ 8) < RN (IZR (n + 1) / 10 ^ 8).
@@ -450,9 +450,90 @@ Proof.
   - intros H. apply (units8_compare t x) in H; rewrite ?Ut, ?Ux in *; lia.
 Qed.
 
+(** * 3'. The repaired test (repo 9bb39e5): round(current_time - next_event_time, 8) >= 0 *)
+
+(* One rounding for the subtraction, then round(., 8), then the comparison with the int 0 (Python: -0.0 >= 0 is True,
+   so only the real value matters).  No tie can hurt any more: the only boundary is (t - x) * 10^8 = -1/2, and exact
+   grid differences are 0 or at least 1/U >= 2e-8 in absolute value. *)
+
+Lemma fmt_neg_bpow e : (-1022 <= e)%Z -> generic_format radix2 fexp64 (- bpow radix2 e).
+Proof. intros H. apply generic_format_opp. apply generic_format_bpow. unfold fexp64, FLT_exp. lia. Qed.
+
+Lemma units8_nonneg z : (0 <= units8 z)%Z <-> - / 2 <= z * 10 ^ 8.
+Proof.
+  unfold units8. set (y := z * 10 ^ 8).
+  pose proof (Znearest_half (fun n => negb (Z.even n)) y) as H. apply Rabs_le_inv in H.
+  split.
+  - intros P. apply IZR_le in P. lra.
+  - intros P. destruct (Req_dec y (- / 2)) as [->|N].
+    + (* the tie -1/2 goes to the even neighbour 0 *)
+      unfold Znearest.
+      assert (F : Zfloor (- / 2) = (-1)%Z) by (apply Zfloor_imp; simpl; lra).
+      assert (C : Zceil (- / 2) = 0%Z) by (apply Zceil_imp; simpl; lra).
+      rewrite F, C. rewrite Rcompare_Eq by (simpl; lra). simpl. lia.
+    + apply le_IZR. assert (-1 < IZR (ZnearestE y)) by lra.
+      apply lt_IZR in H0. apply IZR_le. lia.
+Qed.
+
+Lemma py_round8_nonneg z : 0 <= py_round8 z <-> (0 <= units8 z)%Z.
+Proof.
+  unfold py_round8. rewrite e8_val. split.
+  - intros H. destruct (Z_le_gt_dec 0 (units8 z)) as [P|P]. exact P. exfalso.
+    assert (IZR (units8 z) <= -1) by (apply IZR_le; lia).
+    assert (L : RN (IZR (units8 z) / 100000000) <= - bpow radix2 (-27)).
+    { unfold RN. apply round_le_generic; [exact fexp64_valid | apply valid_rnd_N | apply fmt_neg_bpow; lia |].
+      change (bpow radix2 (-27)) with (/ 134217728). lra. }
+    pose proof (bpow_gt_0 radix2 (-27)). lra.
+  - intros P. apply IZR_le in P. unfold RN. apply round_ge_generic; [exact fexp64_valid | apply valid_rnd_N | apply generic_format_0 |].
+    apply Rmult_le_pos. exact P. lra.
+Qed.
+
+(* the repaired test, on the float values *)
+Definition float_due' (t x : R) : bool := Rle_bool 0 (py_round8 (RN (t - x))).
+
+(* Main theorem for the repaired test: ALL tpb (no tie hypothesis, no q).  The constant: 6 * 10^8 * E <= 1
+   (E <= 1.67e-9), and still 2 U <= 10^8.  (The refuted test tolerated 2 q 10^8 E < 1: the same constant for q = 3,
+   e.g. tpb = 480; a factor 3 more for q = 1.) *)
+Theorem due'_float_exact (U tpb tau k a : Z) (t x E : R) :
+  (0 < tpb)%Z -> (0 < tau)%Z -> U = (tau * tpb)%Z -> (2 * U <= 10 ^ 8)%Z ->
+  6 * 10 ^ 8 * E <= 1 ->
+  Rabs (t - IZR k / IZR tpb) <= E -> Rabs (x - IZR a / IZR U) <= E ->
+  (0 <= py_round8 (RN (t - x)) <-> (a <= k * tau)%Z).
+Proof.
+  intros Htpb Htau HU HU2 HE Ht Hx.
+  assert (U0 : (0 < U)%Z) by nia.
+  assert (KT : IZR k / IZR tpb = IZR (k * tau) / IZR U).
+  { subst U. rewrite !mult_IZR. field. split; apply not_0_IZR; lia. }
+  rewrite KT in Ht. rewrite e8_val in HE.
+  apply IZR_lt in U0. apply IZR_le in HU2. rewrite mult_IZR in HU2. change (IZR (10 ^ 8)) with 100000000 in HU2.
+  unfold Rdiv in *. set (iu := / IZR U) in *.
+  assert (IU : IZR U * iu = 1) by (unfold iu; field; lra).
+  assert (IU0 : 0 < iu) by (unfold iu; apply Rinv_0_lt_compat; lra).
+  assert (IU2 : 2 <= 100000000 * iu) by nra.
+  apply Rabs_le_inv in Ht. apply Rabs_le_inv in Hx.
+  rewrite py_round8_nonneg, units8_nonneg. rewrite e8_val.
+  destruct (Z_le_gt_dec a (k * tau)) as [L|G].
+  - split; [intros _; exact L | intros _].
+    (* t - x >= -2E >= -2^-28, a double; so is the rounded difference *)
+    assert (D : IZR a * iu <= IZR (k * tau) * iu).
+    { apply Rmult_le_compat_r. lra. apply IZR_le. exact L. }
+    assert (B : - bpow radix2 (-28) <= RN (t - x)).
+    { unfold RN. apply round_ge_generic; [exact fexp64_valid | apply valid_rnd_N | apply fmt_neg_bpow; lia |].
+      change (bpow radix2 (-28)) with (/ 268435456). lra. }
+    change (bpow radix2 (-28)) with (/ 268435456) in B. lra.
+  - split; [|intros C; lia]. intros C. exfalso.
+    (* t - x <= -1/U + 2E <= -2^-27, a double *)
+    assert (D : (IZR (k * tau) + 1) * (100000000 * iu) <= IZR a * (100000000 * iu)).
+    { apply Rmult_le_compat_r. lra. rewrite <- plus_IZR. apply IZR_le. lia. }
+    assert (B : RN (t - x) <= - bpow radix2 (-27)).
+    { unfold RN. apply round_le_generic; [exact fexp64_valid | apply valid_rnd_N | apply fmt_neg_bpow; lia |].
+      change (bpow radix2 (-27)) with (/ 134217728). lra. }
+    change (bpow radix2 (-27)) with (/ 134217728) in B. lra.
+Qed.
+
 (** * 4. The project's corollaries: the loop of Track.tick *)
 
-(* round(self.current_time, 8) >= round(self.next_event_time, 8) *)
+(* the refuted test: round(self.current_time, 8) >= round(self.next_event_time, 8) *)
 Definition float_due (t x : R) : bool := Rle_bool (py_round8 x) (py_round8 t).
 (* Sched/Model.v:  t_next tr <=? t_cur tr  (integer units) *)
 Definition exact_due (cur a : Z) : bool := (a <=? cur)%Z.
@@ -466,18 +547,26 @@ Proof. induction 1; simpl; lia. Qed.
 (* the duration of u units, in beats *)
 Definition Dof (U u : Z) : R := IZR u / IZR U.
 
-(* The setting.  tpb ticks per beat; tau units per tick, U = tau * tpb units per beat (the grid of Sched/Model.v);
-   the track starts at tick s; Us = the durations of the events in units (D_j = u_j / U beats, 0 allowed);
-   T = a bound in beats on the exact time of the last event.
-   Hypotheses: U <= 10^8 / 2;  512 does not divide tpb (no decimal ties on the tick grid);
-   q with tpb | 2 * 10^8 * q (q = tpb / gcd(tpb, 2 * 10^8); tpb = 480: q = 3);
-   the error budget (J + 1) (2^-53 + 2^-73) T of fsum_error_closed stays below 1 / (2 q 10^8). *)
-Definition admissible (tpb tau q s : Z) (Us : list Z) (T : R) : Prop :=
-  (0 < tpb)%Z /\ (tpb mod 512 <> 0)%Z /\ (0 < tau)%Z /\ (2 * (tau * tpb) <= 10 ^ 8)%Z /\
-  (0 < q)%Z /\ (tpb | 2 * 10 ^ 8 * q)%Z /\
+(* The setting.  tpb ticks per beat; tau units per tick, U = tau * tpb units per beat (the grid of Sched/Model.v),
+   U <= 10^8 / 2; the track starts at tick s; Us = the durations of the events in units (D_j = u_j / U beats, 0 allowed);
+   T = a bound in beats on the exact time of the last event. *)
+Definition grid_setting (tpb tau s : Z) (Us : list Z) (T : R) : Prop :=
+  (0 < tpb)%Z /\ (0 < tau)%Z /\ (2 * (tau * tpb) <= 10 ^ 8)%Z /\
   (0 <= s)%Z /\ Forall (fun u => (0 <= u)%Z) Us /\ (Z.of_nat (length Us) < 2 ^ 32)%Z /\
-  0 < T <= 1048576 /\ IZR (s * tau + sumZ Us) / IZR (tau * tpb) <= T /\
-  2 * 10 ^ 8 * IZR q * (INR (length Us + 1) * cT T) < 1.
+  0 < T <= 1048576 /\ IZR (s * tau + sumZ Us) / IZR (tau * tpb) <= T.
+
+(* the error budget E = (J + 1) (2^-53 + 2^-73) T of fsum_error_closed *)
+Definition budget (Us : list Z) (T : R) : R := INR (length Us + 1) * cT T.
+
+(* hypotheses for the REPAIRED test: every tpb; budget <= 1 / (6 * 10^8) *)
+Definition admissible' (tpb tau s : Z) (Us : list Z) (T : R) : Prop :=
+  grid_setting tpb tau s Us T /\ 6 * 10 ^ 8 * budget Us T <= 1.
+
+(* hypotheses for the REFUTED test: 512 does not divide tpb (no decimal ties on the tick grid);
+   q with tpb | 2 * 10^8 * q (q = tpb / gcd(tpb, 2 * 10^8); tpb = 480: q = 3); budget < 1 / (2 q 10^8) *)
+Definition admissible (tpb tau q s : Z) (Us : list Z) (T : R) : Prop :=
+  grid_setting tpb tau s Us T /\ (tpb mod 512 <> 0)%Z /\ (0 < q)%Z /\ (tpb | 2 * 10 ^ 8 * q)%Z /\
+  2 * 10 ^ 8 * IZR q * budget Us T < 1.
 
 Lemma Dof_adm U u : (0 < U)%Z -> (2 * U <= 10 ^ 8)%Z -> (0 <= u)%Z -> adm (Dof U u).
 Proof.
@@ -499,34 +588,65 @@ Proof.
     rewrite plus_IZR. field. apply not_0_IZR. lia.
 Qed.
 
+(** the while loop of Track.tick, for any due test: state = (next_event_time, remaining durations) *)
+Fixpoint fl_while (due : R -> R -> bool) (t x : R) (ds : list R) : R * list R :=
+  match ds with
+  | [] => (x, [])
+  | d :: r => if due t x then fl_while due t (fadd x d) r else (x, ds)
+  end.
+Fixpoint ex_while (cur a : Z) (us : list Z) : Z * list Z :=
+  match us with
+  | [] => (a, [])
+  | u :: r => if exact_due cur a then ex_while cur (a + u)%Z r else (a, us)
+  end.
+
+(** the run: tick m = 0, 1, ..., n-1, the track's clock at tick m given by [time m] *)
+Fixpoint fl_run (due : R -> R -> bool) (time : nat -> R) (n : nat) (st : R * list R) : R * list R :=
+  match n with
+  | O => st
+  | S m => let st' := fl_run due time m st in fl_while due (time m) (fst st') (snd st')
+  end.
+Fixpoint ex_run (tau : Z) (n : nat) (st : Z * list Z) : Z * list Z :=
+  match n with
+  | O => st
+  | S m => let st' := ex_run tau m st in ex_while (Z.of_nat m * tau) (fst st') (snd st')
+  end.
+
+Lemma fl_run_ext due time1 time2 n st : (forall m, (m < n)%nat -> time1 m = time2 m) ->
+  fl_run due time1 n st = fl_run due time2 n st.
+Proof.
+  induction n as [|n IH]; intros H. reflexivity.
+  simpl. rewrite IH by (intros; apply H; lia). rewrite H by lia. reflexivity.
+Qed.
+
 Section Track.
-  Variables (tpb tau q s : Z) (Us : list Z) (T : R).
-  Hypothesis ADM : admissible tpb tau q s Us T.
+  Variables (tpb tau s : Z) (Us : list Z) (T : R).
+  Hypothesis GS : grid_setting tpb tau s Us T.
 
   Let U : Z := (tau * tpb)%Z.
   Let S0 : R := IZR s / IZR tpb.                      (* exact start time *)
   (* float and exact next_event_time after the events [pre] *)
   Definition Xf (pre : list Z) : R := fsum (RN (IZR s / IZR tpb)) (map (Dof (tau * tpb)) pre).
   Definition Ax (pre : list Z) : Z := (s * tau + sumZ pre)%Z.
-  Let E : R := INR (length Us + 1) * cT T.
+  Let E : R := budget Us T.
 
   Lemma S0_units : S0 = IZR (s * tau) / IZR U.
   Proof.
-    destruct ADM as (H1 & _ & H3 & _). unfold S0, U. rewrite !mult_IZR. field. split; apply not_0_IZR; lia.
+    destruct GS as (H1 & H3 & _). unfold S0, U. rewrite !mult_IZR. field. split; apply not_0_IZR; lia.
   Qed.
 
   Lemma U_pos : (0 < U)%Z.
-  Proof. destruct ADM as (H1 & _ & H3 & _). unfold U. nia. Qed.
+  Proof. destruct GS as (H1 & H3 & _). unfold U. nia. Qed.
 
   Lemma Ds_adm : Forall adm (map (Dof U) Us).
   Proof.
-    destruct ADM as (H1 & _ & H3 & H4 & _ & _ & _ & H8 & _).
+    destruct GS as (H1 & H3 & H4 & _ & H8 & _).
     apply Forall_map. eapply Forall_impl; [|exact H8]. intros u Hu. apply Dof_adm; [apply U_pos | exact H4 | exact Hu].
   Qed.
 
   Lemma S0_adm : adm S0.
   Proof.
-    destruct ADM as (H1 & _ & H3 & H4 & _ & _ & H7 & _). rewrite S0_units. apply Dof_adm; [apply U_pos | exact H4 | nia].
+    destruct GS as (H1 & H3 & H4 & H7 & _). rewrite S0_units. apply Dof_adm; [apply U_pos | exact H4 | nia].
   Qed.
 
   (* the float next_event_time after any prefix of the events is within E of the exact one *)
@@ -534,7 +654,7 @@ Section Track.
     Rabs (Xf pre - IZR (Ax pre) / IZR U) <= E /\ (0 <= Ax pre <= 2 ^ 20 * U)%Z.
   Proof.
     intros HUs. pose proof U_pos as U0.
-    destruct ADM as (H1 & _ & H3 & H4 & _ & _ & H7 & H8 & H9 & H10 & H11 & _).
+    destruct GS as (H1 & H3 & H4 & H7 & H8 & H9 & H10 & H11).
     assert (PRE : pre = firstn (length pre) Us).
     { rewrite HUs. rewrite firstn_app, Nat.sub_diag, firstn_all. simpl. rewrite app_nil_r. reflexivity. }
     assert (TOT : esum S0 (map (Dof U) Us) = IZR (s * tau + sumZ Us) / IZR U).
@@ -543,7 +663,7 @@ Section Track.
     { rewrite S0_units. unfold Ax. apply esum_grid. exact U0. }
     split.
     - unfold Xf. fold U. fold S0. rewrite <- EX. rewrite PRE at 1 2. rewrite <- !firstn_map.
-      unfold E. replace (length Us) with (length (map (Dof U) Us)) by apply map_length.
+      unfold E, budget. replace (length Us) with (length (map (Dof U) Us)) by apply map_length.
       apply fsum_error_prefix.
       + lra.
       + apply Ds_adm.
@@ -566,7 +686,7 @@ Section Track.
   Lemma time_error (k : Z) : (0 <= k)%Z -> IZR k <= T * IZR tpb ->
     Rabs (RN (IZR k / IZR tpb) - IZR k / IZR tpb) <= E /\ (0 <= k <= 2 ^ 20 * tpb)%Z.
   Proof.
-    intros Hk HkT. destruct ADM as (H1 & _ & H3 & H4 & _ & _ & H7 & H8 & H9 & H10 & H11 & _).
+    intros Hk HkT. destruct GS as (H1 & H3 & H4 & H7 & H8 & H9 & H10 & H11).
     assert (T0 : 0 < IZR tpb) by (apply IZR_lt; lia).
     assert (K0 : 0 <= IZR k) by (apply IZR_le; lia).
     assert (KT : 0 <= IZR k / IZR tpb <= T).
@@ -577,177 +697,253 @@ Section Track.
       { replace (IZR k / IZR tpb) with (Dof U (k * tau)). apply Dof_adm; [apply U_pos | exact H4 | nia].
         unfold Dof, U. rewrite !mult_IZR. field. split; apply not_0_IZR; lia. }
       eapply Rle_trans. apply RN_err. exact A.
-      unfold E. rewrite plus_INR. simpl INR. pose proof (pos_INR (length Us)) as L.
+      unfold E, budget. rewrite plus_INR. simpl INR. pose proof (pos_INR (length Us)) as L.
       assert (C : u53 * (IZR k / IZR tpb) <= cT T).
       { unfold cT, eta20. rewrite u53_val. nra. }
       pose proof (cT_nonneg T ltac:(lra)). nra.
     - split. lia. apply le_IZR. rewrite mult_IZR. change (IZR (2 ^ 20)) with 1048576. nra.
   Qed.
 
-  (* Deliverable 4a: for ALL ticks k and ALL event indices (prefixes), the float test decides like the exact one *)
-  Theorem float_due_is_exact_due (k : Z) pre post :
-    (0 <= k)%Z -> IZR k <= T * IZR tpb -> Us = pre ++ post ->
-    float_due (RN (IZR k / IZR tpb)) (Xf pre) = exact_due (k * tau) (Ax pre).
-  Proof.
-    intros Hk HkT HUs.
-    destruct (time_error k Hk HkT) as [Et Rk]. destruct (Xf_error pre post HUs) as [Ex Ra].
-    destruct ADM as (H1 & H2 & H3 & H4 & H5 & H6 & H7 & H8 & H9 & H10 & H11 & H12).
-    pose proof (due_float_exact U tpb tau q k (Ax pre) (RN (IZR k / IZR tpb)) (Xf pre) E
-                  H1 H3 eq_refl H4 H5 H6 H12 (no_tie_of_not_512 tpb H2 k) Rk Ra Et Ex) as D.
-    unfold float_due, exact_due.
-    destruct (Z.leb_spec (Ax pre) (k * tau)) as [L|L].
-    - apply Rle_bool_true. apply D. exact L.
-    - apply Rle_bool_false. apply Rnot_le_lt. intros C. apply D in C. lia.
-  Qed.
+  (** generic part: ANY float test that decides like the exact one on corresponding states runs like the model *)
+  Section AnyTest.
+    Variable due : R -> R -> bool.
+    Hypothesis due_exact : forall (k : Z) pre post, (0 <= k)%Z -> IZR k <= T * IZR tpb -> Us = pre ++ post ->
+      due (RN (IZR k / IZR tpb)) (Xf pre) = exact_due (k * tau) (Ax pre).
 
-  (* the same, by event index j *)
-  Corollary float_due_is_exact_due_index (k : Z) (j : nat) :
-    (0 <= k)%Z -> IZR k <= T * IZR tpb ->
-    float_due (RN (IZR k / IZR tpb)) (fsum (RN (IZR s / IZR tpb)) (firstn j (map (Dof (tau * tpb)) Us)))
-    = exact_due (k * tau) (s * tau + sumZ (firstn j Us)).
-  Proof.
-    intros Hk HkT. rewrite firstn_map.
-    apply (float_due_is_exact_due k (firstn j Us) (skipn j Us) Hk HkT). symmetry. apply firstn_skipn.
-  Qed.
+    Lemma any_while_agree (k : Z) : (0 <= k)%Z -> IZR k <= T * IZR tpb ->
+      forall post pre, Us = pre ++ post ->
+      exists pre' post', Us = pre' ++ post' /\
+        fl_while due (RN (IZR k / IZR tpb)) (Xf pre) (map (Dof (tau * tpb)) post) = (Xf pre', map (Dof (tau * tpb)) post') /\
+        ex_while (k * tau) (Ax pre) post = (Ax pre', post').
+    Proof.
+      intros Hk HkT. induction post as [|u r IH]; intros pre HUs.
+      - exists pre, []. repeat split; assumption.
+      - simpl. rewrite (due_exact k pre (u :: r) Hk HkT HUs).
+        destruct (exact_due (k * tau) (Ax pre)).
+        + assert (HUs' : Us = (pre ++ [u]) ++ r) by (rewrite <- app_assoc; exact HUs).
+          destruct (IH (pre ++ [u]) HUs') as (pre' & post' & A & B & C).
+          exists pre', post'. split. exact A. split.
+          * rewrite <- B. f_equal. unfold Xf. rewrite map_app, fsum_app. reflexivity.
+          * rewrite <- C. f_equal. unfold Ax. rewrite sumZ_app. simpl. lia.
+        + exists pre, (u :: r). repeat split. exact HUs.
+    Qed.
 
-  (** the while loop of Track.tick: state = (next_event_time, remaining durations) *)
-  Fixpoint fl_while (t x : R) (ds : list R) : R * list R :=
-    match ds with
-    | [] => (x, [])
-    | d :: r => if float_due t x then fl_while t (fadd x d) r else (x, ds)
-    end.
-  Fixpoint ex_while (cur a : Z) (us : list Z) : Z * list Z :=
-    match us with
-    | [] => (a, [])
-    | u :: r => if exact_due cur a then ex_while cur (a + u)%Z r else (a, us)
-    end.
+    Lemma any_run_agree (n : nat) : IZR (Z.of_nat n) <= T * IZR tpb ->
+      exists pre post, Us = pre ++ post /\
+        fl_run due (fun m => RN (IZR (Z.of_nat m) / IZR tpb)) n (RN (IZR s / IZR tpb), map (Dof (tau * tpb)) Us)
+          = (Xf pre, map (Dof (tau * tpb)) post) /\
+        ex_run tau n ((s * tau)%Z, Us) = (Ax pre, post).
+    Proof.
+      induction n as [|n IH]; intros Hn.
+      - exists [], Us. repeat split. unfold Ax. simpl. f_equal. lia.
+      - assert (Hn' : IZR (Z.of_nat n) <= T * IZR tpb).
+        { eapply Rle_trans; [|exact Hn]. apply IZR_le. lia. }
+        destruct (IH Hn') as (pre & post & A & B & C).
+        simpl. rewrite B, C. simpl fst. simpl snd.
+        apply (any_while_agree (Z.of_nat n) ltac:(lia) Hn' post pre A).
+    Qed.
 
-  (* Deliverable 4b: on every tick, from corresponding states, both loops consume the same events *)
-  Theorem while_agree (k : Z) : (0 <= k)%Z -> IZR k <= T * IZR tpb ->
-    forall post pre, Us = pre ++ post ->
-    exists pre' post', Us = pre' ++ post' /\
-      fl_while (RN (IZR k / IZR tpb)) (Xf pre) (map (Dof (tau * tpb)) post) = (Xf pre', map (Dof (tau * tpb)) post') /\
-      ex_while (k * tau) (Ax pre) post = (Ax pre', post').
-  Proof.
-    intros Hk HkT. induction post as [|u r IH]; intros pre HUs.
-    - exists pre, []. repeat split; assumption.
-    - simpl. rewrite (float_due_is_exact_due k pre (u :: r) Hk HkT HUs).
-      destruct (exact_due (k * tau) (Ax pre)).
-      + assert (HUs' : Us = (pre ++ [u]) ++ r) by (rewrite <- app_assoc; exact HUs).
-        destruct (IH (pre ++ [u]) HUs') as (pre' & post' & A & B & C).
-        exists pre', post'. split. exact A. split.
-        * rewrite <- B. f_equal. unfold Xf. rewrite map_app, fsum_app. reflexivity.
-        * rewrite <- C. f_equal. unfold Ax. rewrite sumZ_app. simpl. lia.
-      + exists pre, (u :: r). repeat split. exact HUs.
-  Qed.
+    (* ... with the clock the SOURCE computes (Base/FloatGrid.v: grid_step iterated from 0.0) *)
+    Lemma any_run_agree_src (n : nat) : (tpb <= 2 ^ 20)%Z -> IZR (Z.of_nat n) <= T * IZR tpb ->
+      exists pre post, Us = pre ++ post /\
+        fl_run due (fun m => Nat.iter m (grid_step tpb) 0) n (RN (IZR s / IZR tpb), map (Dof (tau * tpb)) Us)
+          = (Xf pre, map (Dof (tau * tpb)) post) /\
+        ex_run tau n ((s * tau)%Z, Us) = (Ax pre, post).
+    Proof.
+      intros Htpb Hn.
+      rewrite (fl_run_ext due _ (fun m => RN (IZR (Z.of_nat m) / IZR tpb))).
+      - apply any_run_agree. exact Hn.
+      - intros m Hm. destruct GS as (H1 & _ & _ & _ & _ & _ & H10 & _).
+        apply grid_run_exact. lia.
+        assert (IZR (Z.of_nat m) <= 1048576 * 1048576).
+        { assert (IZR (Z.of_nat m) <= IZR (Z.of_nat n)) by (apply IZR_le; lia).
+          assert (IZR tpb <= 1048576) by (apply IZR_le; lia).
+          assert (0 < IZR tpb) by (apply IZR_lt; lia). nra. }
+        apply le_IZR. change (IZR (2 ^ 40)) with 1099511627776. lra.
+    Qed.
 
-  (** the run: tick m = 0, 1, ..., n-1, the track's clock at tick m given by [time m] *)
-  Fixpoint fl_run (time : nat -> R) (n : nat) (st : R * list R) : R * list R :=
-    match n with
-    | O => st
-    | S m => let st' := fl_run time m st in fl_while (time m) (fst st') (snd st')
-    end.
-  Fixpoint ex_run (n : nat) (st : Z * list Z) : Z * list Z :=
-    match n with
-    | O => st
-    | S m => let st' := ex_run m st in ex_while (Z.of_nat m * tau) (fst st') (snd st')
-    end.
+    Lemma any_consumed_agree (n : nat) : IZR (Z.of_nat n) <= T * IZR tpb ->
+      length (snd (fl_run due (fun m => RN (IZR (Z.of_nat m) / IZR tpb)) n (RN (IZR s / IZR tpb), map (Dof (tau * tpb)) Us)))
+      = length (snd (ex_run tau n ((s * tau)%Z, Us))).
+    Proof.
+      intros Hn. destruct (any_run_agree n Hn) as (pre & post & _ & B & C). rewrite B, C. simpl. apply map_length.
+    Qed.
+  End AnyTest.
 
-  Lemma fl_run_ext time1 time2 n st : (forall m, (m < n)%nat -> time1 m = time2 m) ->
-    fl_run time1 n st = fl_run time2 n st.
-  Proof.
-    induction n as [|n IH]; intros H. reflexivity.
-    simpl. rewrite IH by (intros; apply H; lia). rewrite H by lia. reflexivity.
-  Qed.
+  (** the REPAIRED test: every tpb *)
+  Section Repaired.
+    Hypothesis BUD : 6 * 10 ^ 8 * budget Us T <= 1.
 
-  (* Deliverable 4c: after every number n of ticks (up to T beats) the float run and the exact run have consumed the
-     same events: every event has the same onset tick in the float computation as in exact arithmetic *)
-  Theorem run_agree (n : nat) : IZR (Z.of_nat n) <= T * IZR tpb ->
-    exists pre post, Us = pre ++ post /\
-      fl_run (fun m => RN (IZR (Z.of_nat m) / IZR tpb)) n (RN (IZR s / IZR tpb), map (Dof (tau * tpb)) Us)
-        = (Xf pre, map (Dof (tau * tpb)) post) /\
-      ex_run n ((s * tau)%Z, Us) = (Ax pre, post).
-  Proof.
-    induction n as [|n IH]; intros Hn.
-    - exists [], Us. repeat split. unfold Ax. simpl. f_equal. lia.
-    - assert (Hn' : IZR (Z.of_nat n) <= T * IZR tpb).
-      { eapply Rle_trans; [|exact Hn]. apply IZR_le. lia. }
-      destruct (IH Hn') as (pre & post & A & B & C).
-      simpl. rewrite B, C. simpl fst. simpl snd.
-      apply (while_agree (Z.of_nat n) ltac:(lia) Hn' post pre A).
-  Qed.
+    (* Deliverable 4a': for ALL ticks k and ALL event prefixes the repaired float test decides like the exact one *)
+    Theorem float_due'_is_exact_due (k : Z) pre post :
+      (0 <= k)%Z -> IZR k <= T * IZR tpb -> Us = pre ++ post ->
+      float_due' (RN (IZR k / IZR tpb)) (Xf pre) = exact_due (k * tau) (Ax pre).
+    Proof.
+      intros Hk HkT HUs.
+      destruct (time_error k Hk HkT) as [Et _]. destruct (Xf_error pre post HUs) as [Ex _].
+      destruct GS as (H1 & H3 & H4 & _).
+      pose proof (due'_float_exact U tpb tau k (Ax pre) (RN (IZR k / IZR tpb)) (Xf pre) E
+                    H1 H3 eq_refl H4 BUD Et Ex) as D.
+      unfold float_due', exact_due.
+      destruct (Z.leb_spec (Ax pre) (k * tau)) as [L|L].
+      - apply Rle_bool_true. apply D. exact L.
+      - apply Rle_bool_false. apply Rnot_le_lt. intros C. apply D in C. lia.
+    Qed.
 
-  (* ... with the clock the SOURCE computes (Base/FloatGrid.v: grid_step iterated from 0.0) *)
-  Corollary run_agree_src (n : nat) : (tpb <= 2 ^ 20)%Z -> IZR (Z.of_nat n) <= T * IZR tpb ->
-    exists pre post, Us = pre ++ post /\
-      fl_run (fun m => Nat.iter m (grid_step tpb) 0) n (RN (IZR s / IZR tpb), map (Dof (tau * tpb)) Us)
-        = (Xf pre, map (Dof (tau * tpb)) post) /\
-      ex_run n ((s * tau)%Z, Us) = (Ax pre, post).
-  Proof.
-    intros Htpb Hn.
-    rewrite (fl_run_ext _ (fun m => RN (IZR (Z.of_nat m) / IZR tpb))).
-    - apply run_agree. exact Hn.
-    - intros m Hm. destruct ADM as (H1 & _ & _ & _ & _ & _ & _ & _ & _ & H10 & _).
-      apply grid_run_exact. lia.
-      assert (IZR (Z.of_nat m) <= 1048576 * 1048576).
-      { assert (IZR (Z.of_nat m) <= IZR (Z.of_nat n)) by (apply IZR_le; lia).
-        assert (IZR tpb <= 1048576) by (apply IZR_le; lia).
-        assert (0 < IZR tpb) by (apply IZR_lt; lia). nra. }
-      apply le_IZR. change (IZR (2 ^ 40)) with 1099511627776. lra.
-  Qed.
+    Corollary float_due'_is_exact_due_index (k : Z) (j : nat) :
+      (0 <= k)%Z -> IZR k <= T * IZR tpb ->
+      float_due' (RN (IZR k / IZR tpb)) (fsum (RN (IZR s / IZR tpb)) (firstn j (map (Dof (tau * tpb)) Us)))
+      = exact_due (k * tau) (s * tau + sumZ (firstn j Us)).
+    Proof.
+      intros Hk HkT. rewrite firstn_map.
+      apply (float_due'_is_exact_due k (firstn j Us) (skipn j Us) Hk HkT). symmetry. apply firstn_skipn.
+    Qed.
 
-  (* the number of events consumed after n ticks is the same *)
-  Corollary consumed_agree (n : nat) : IZR (Z.of_nat n) <= T * IZR tpb ->
-    length (snd (fl_run (fun m => RN (IZR (Z.of_nat m) / IZR tpb)) n (RN (IZR s / IZR tpb), map (Dof (tau * tpb)) Us)))
-    = length (snd (ex_run n ((s * tau)%Z, Us))).
-  Proof.
-    intros Hn. destruct (run_agree n Hn) as (pre & post & _ & B & C). rewrite B, C. simpl. apply map_length.
-  Qed.
+    Definition while_agree' := any_while_agree float_due' float_due'_is_exact_due.
+    Definition run_agree' := any_run_agree float_due' float_due'_is_exact_due.
+    Definition run_agree_src' := any_run_agree_src float_due' float_due'_is_exact_due.
+    Definition consumed_agree' := any_consumed_agree float_due' float_due'_is_exact_due.
+  End Repaired.
+
+  (** the REFUTED test (kept as the record of why the code was changed): needs 512 not dividing tpb *)
+  Section Refuted.
+    Variable q : Z.
+    Hypotheses (NT : (tpb mod 512 <> 0)%Z) (Q0 : (0 < q)%Z) (QD : (tpb | 2 * 10 ^ 8 * q)%Z)
+               (BUD : 2 * 10 ^ 8 * IZR q * budget Us T < 1).
+
+    Theorem float_due_is_exact_due (k : Z) pre post :
+      (0 <= k)%Z -> IZR k <= T * IZR tpb -> Us = pre ++ post ->
+      float_due (RN (IZR k / IZR tpb)) (Xf pre) = exact_due (k * tau) (Ax pre).
+    Proof.
+      intros Hk HkT HUs.
+      destruct (time_error k Hk HkT) as [Et Rk]. destruct (Xf_error pre post HUs) as [Ex Ra].
+      destruct GS as (H1 & H3 & H4 & _).
+      pose proof (due_float_exact U tpb tau q k (Ax pre) (RN (IZR k / IZR tpb)) (Xf pre) E
+                    H1 H3 eq_refl H4 Q0 QD BUD (no_tie_of_not_512 tpb NT k) Rk Ra Et Ex) as D.
+      unfold float_due, exact_due.
+      destruct (Z.leb_spec (Ax pre) (k * tau)) as [L|L].
+      - apply Rle_bool_true. apply D. exact L.
+      - apply Rle_bool_false. apply Rnot_le_lt. intros C. apply D in C. lia.
+    Qed.
+
+    Definition while_agree := any_while_agree float_due float_due_is_exact_due.
+    Definition run_agree := any_run_agree float_due float_due_is_exact_due.
+    Definition run_agree_src := any_run_agree_src float_due float_due_is_exact_due.
+    Definition consumed_agree := any_consumed_agree float_due float_due_is_exact_due.
+  End Refuted.
 End Track.
 
-(** * 5. The hypotheses are satisfiable; a simple sufficient form of the error budget *)
+(** * 5. The statements, unfolded, for the two sets of hypotheses *)
 
-(* q * (J + 1) * T <= 45 * 10^6  (J events, T beats) is enough for the last clause of [admissible] *)
-Lemma budget_ok (q : Z) (J : nat) (T : R) :
-  (0 < q)%Z -> 0 < T -> IZR q * INR (J + 1) * T <= 45000000 ->
-  2 * 10 ^ 8 * IZR q * (INR (J + 1) * cT T) < 1.
+(* REPAIRED test, every resolution tpb <= 2^20: after every number n of ticks (up to T beats) the float run, with the
+   clock the source computes, and the exact run of the model have consumed the same events *)
+Theorem run'_float_exact (tpb tau s : Z) (Us : list Z) (T : R) (n : nat) :
+  admissible' tpb tau s Us T -> (tpb <= 2 ^ 20)%Z -> IZR (Z.of_nat n) <= T * IZR tpb ->
+  exists pre post, Us = pre ++ post /\
+    fl_run float_due' (fun m => Nat.iter m (grid_step tpb) 0) n (RN (IZR s / IZR tpb), map (Dof (tau * tpb)) Us)
+      = (Xf tpb tau s pre, map (Dof (tau * tpb)) post) /\
+    ex_run tau n ((s * tau)%Z, Us) = (Ax tau s pre, post).
+Proof. intros [GS B]. apply run_agree_src'; assumption. Qed.
+
+Theorem while'_float_exact (tpb tau s : Z) (Us : list Z) (T : R) (k : Z) :
+  admissible' tpb tau s Us T -> (0 <= k)%Z -> IZR k <= T * IZR tpb ->
+  forall post pre, Us = pre ++ post ->
+  exists pre' post', Us = pre' ++ post' /\
+    fl_while float_due' (RN (IZR k / IZR tpb)) (Xf tpb tau s pre) (map (Dof (tau * tpb)) post)
+      = (Xf tpb tau s pre', map (Dof (tau * tpb)) post') /\
+    ex_while (k * tau) (Ax tau s pre) post = (Ax tau s pre', post').
+Proof. intros [GS B]. apply while_agree'; assumption. Qed.
+
+Theorem consumed'_float_exact (tpb tau s : Z) (Us : list Z) (T : R) (n : nat) :
+  admissible' tpb tau s Us T -> IZR (Z.of_nat n) <= T * IZR tpb ->
+  length (snd (fl_run float_due' (fun m => RN (IZR (Z.of_nat m) / IZR tpb)) n (RN (IZR s / IZR tpb), map (Dof (tau * tpb)) Us)))
+  = length (snd (ex_run tau n ((s * tau)%Z, Us))).
+Proof. intros [GS B]. apply consumed_agree'; assumption. Qed.
+
+Theorem due'_index_float_exact (tpb tau s : Z) (Us : list Z) (T : R) (k : Z) (j : nat) :
+  admissible' tpb tau s Us T -> (0 <= k)%Z -> IZR k <= T * IZR tpb ->
+  float_due' (RN (IZR k / IZR tpb)) (fsum (RN (IZR s / IZR tpb)) (firstn j (map (Dof (tau * tpb)) Us)))
+  = exact_due (k * tau) (s * tau + sumZ (firstn j Us)).
+Proof. intros [GS B]. apply float_due'_is_exact_due_index; assumption. Qed.
+
+(* REFUTED test: the same, but only when 512 does not divide tpb *)
+Theorem run_float_exact_refuted_test (tpb tau q s : Z) (Us : list Z) (T : R) (n : nat) :
+  admissible tpb tau q s Us T -> (tpb <= 2 ^ 20)%Z -> IZR (Z.of_nat n) <= T * IZR tpb ->
+  exists pre post, Us = pre ++ post /\
+    fl_run float_due (fun m => Nat.iter m (grid_step tpb) 0) n (RN (IZR s / IZR tpb), map (Dof (tau * tpb)) Us)
+      = (Xf tpb tau s pre, map (Dof (tau * tpb)) post) /\
+    ex_run tau n ((s * tau)%Z, Us) = (Ax tau s pre, post).
+Proof. intros (GS & NT & Q0 & QD & B). apply (run_agree_src tpb tau s Us T GS q); assumption. Qed.
+
+(** * 6. The hypotheses are satisfiable; a simple sufficient form of the error budget *)
+
+(* (J + 1) * T <= 15 * 10^6  (J events, T beats) is enough for the budget clause of [admissible'] *)
+Lemma budget_ok' (Us : list Z) (T : R) :
+  0 < T -> INR (length Us + 1) * T <= 15000000 -> 6 * 10 ^ 8 * budget Us T <= 1.
 Proof.
-  intros Hq HT H. rewrite e8_val. unfold cT, eta20. rewrite u53_val.
-  replace (2 * 100000000 * IZR q * (INR (J + 1) * (/ 9007199254740992 * (1 + / 1048576) * T)))
-    with (IZR q * INR (J + 1) * T * (200000000 * / 9007199254740992 * (1 + / 1048576))) by ring.
-  assert (0 <= IZR q * INR (J + 1) * T).
+  intros HT H. rewrite e8_val. unfold budget, cT, eta20. rewrite u53_val.
+  pose proof (pos_INR (length Us + 1)).
+  assert (0 <= INR (length Us + 1) * T) by (apply Rmult_le_pos; lra).
+  nra.
+Qed.
+
+(* q * (J + 1) * T <= 45 * 10^6 is enough for the budget clause of [admissible] *)
+Lemma budget_ok (q : Z) (Us : list Z) (T : R) :
+  (0 < q)%Z -> 0 < T -> IZR q * INR (length Us + 1) * T <= 45000000 ->
+  2 * 10 ^ 8 * IZR q * budget Us T < 1.
+Proof.
+  intros Hq HT H. rewrite e8_val. unfold budget, cT, eta20. rewrite u53_val.
+  replace (2 * 100000000 * IZR q * (INR (length Us + 1) * (/ 9007199254740992 * (1 + / 1048576) * T)))
+    with (IZR q * INR (length Us + 1) * T * (200000000 * / 9007199254740992 * (1 + / 1048576))) by ring.
+  assert (0 <= IZR q * INR (length Us + 1) * T).
   { apply Rmult_le_pos. apply Rmult_le_pos. apply IZR_le. lia. apply pos_INR. lra. }
   nra.
 Qed.
 
-(* isobar's default resolution, 480 ticks per beat, durations in whole ticks' fractions of 1/480 beat
-   (1/3 beat = 160 units, 0.1 beat = 48 units, one tick = 1 unit): q = 3; up to 14999 events within 1000 beats *)
+(* any resolution: tau = 1 (durations in whole ticks), up to 14999 events within 1000 beats *)
+Lemma admissible'_ticks (tpb : Z) (Us : list Z) :
+  (0 < tpb)%Z -> (2 * tpb <= 10 ^ 8)%Z ->
+  Forall (fun u => (0 <= u)%Z) Us -> (Z.of_nat (length Us) < 15000)%Z -> (sumZ Us <= 1000 * tpb)%Z ->
+  admissible' tpb 1 0 Us 1000.
+Proof.
+  intros H1 H2 HF HL HS. unfold admissible', grid_setting. repeat split; try lia; try lra; try exact HF.
+  - replace (0 * 1 + sumZ Us)%Z with (sumZ Us) by lia. replace (1 * tpb)%Z with tpb by lia.
+    apply IZR_le in HS. rewrite mult_IZR in HS. apply IZR_lt in H1.
+    apply Rmult_le_reg_r with (r := IZR tpb). lra. unfold Rdiv. rewrite Rmult_assoc, Rinv_l by lra. lra.
+  - apply budget_ok'. lra.
+    assert (INR (length Us + 1) <= 15000). { rewrite INR_IZR_INZ. apply IZR_le. lia. }
+    pose proof (pos_INR (length Us + 1)). lra.
+Qed.
+
+(* isobar's default resolution for the refuted test: q = 3 *)
 Lemma admissible_480 (Us : list Z) :
   Forall (fun u => (0 <= u)%Z) Us -> (Z.of_nat (length Us) < 15000)%Z -> (sumZ Us <= 480000)%Z ->
   admissible 480 1 3 0 Us 1000.
 Proof.
-  intros HF HL HS. unfold admissible. repeat split; try lia; try lra; try exact HF.
-  - intros H. discriminate H.
-  - exists 1250000%Z. reflexivity.
-  - pose proof (sumZ_nonneg Us HF) as P. apply IZR_le in HS.
-    replace (0 * 1 + sumZ Us)%Z with (sumZ Us) by lia. change (IZR (1 * 480)) with 480. lra.
-  - apply budget_ok. lia. lra.
-    assert (INR (length Us + 1) <= 15000).
-    { rewrite INR_IZR_INZ. apply IZR_le. lia. }
-    pose proof (pos_INR (length Us + 1)). lra.
+  intros HF HL HS.
+  destruct (admissible'_ticks 480 Us ltac:(lia) ltac:(lia) HF HL ltac:(lia)) as [GS _].
+  split. exact GS. split. intros H; discriminate H. split. lia. split. exists 1250000%Z. reflexivity.
+  apply budget_ok. lia. lra.
+  assert (INR (length Us + 1) <= 15000). { rewrite INR_IZR_INZ. apply IZR_le. lia. }
+  pose proof (pos_INR (length Us + 1)). lra.
 Qed.
 
+(* tpb = 512 and 2560, where the refuted test fails in the real code, are admissible for the repaired one *)
+Example admissible'_512 : admissible' 512 1 0 [102; 1; 51; 102; 1; 51]%Z 1000.
+Proof. apply admissible'_ticks; try lia. repeat constructor; lia. simpl; lia. simpl; lia. Qed.
+Example admissible'_2560 : admissible' 2560 1 0 [1; 1; 1; 1; 1; 1; 1; 1]%Z 1000.
+Proof. apply admissible'_ticks; try lia. repeat constructor; lia. simpl; lia. simpl; lia. Qed.
 Example admissible_nonvacuous : admissible 480 1 3 0 [160; 48; 160; 48; 1; 480]%Z 1000.
 Proof. apply admissible_480. repeat constructor; lia. simpl; lia. simpl; lia. Qed.
 
-(* the instance: at 480 ticks per beat, durations 1/3, 0.1, 1/3, 0.1, 1/480, 1: every float decision, on every tick
-   up to beat 1000, for every event, is the exact decision *)
-Example due_480 (k : Z) (j : nat) : (0 <= k <= 480000)%Z ->
-  float_due (RN (IZR k / 480)) (fsum (RN (0 / 480)) (firstn j (map (Dof (1 * 480)) [160; 48; 160; 48; 1; 480]%Z)))
-  = exact_due (k * 1) (0 * 1 + sumZ (firstn j [160; 48; 160; 48; 1; 480]%Z)).
+(* the instance: 2560 ticks per beat, one event per tick (the run in which the refuted test loses notes 3, 17, 19, 23):
+   with the repaired test every float decision on every tick up to beat 1000 is the exact decision *)
+Example due'_2560 (k : Z) (j : nat) : (0 <= k <= 2560000)%Z ->
+  float_due' (RN (IZR k / 2560)) (fsum (RN (0 / 2560)) (firstn j (map (Dof (1 * 2560)) [1; 1; 1; 1; 1; 1; 1; 1]%Z)))
+  = exact_due (k * 1) (0 * 1 + sumZ (firstn j [1; 1; 1; 1; 1; 1; 1; 1]%Z)).
 Proof.
-  intros Hk. apply (float_due_is_exact_due_index 480 1 3 0 _ 1000 admissible_nonvacuous). lia.
-  replace (1000 * 480) with (IZR 480000) by (simpl; lra). apply IZR_le. lia.
+  intros Hk. apply (due'_index_float_exact 2560 1 0 _ 1000 k j admissible'_2560). lia.
+  replace (1000 * 2560) with (IZR 2560000) by (simpl; lra). apply IZR_le. lia.
 Qed.
 
 Print Assumptions units8_compare.
@@ -755,16 +951,18 @@ Print Assumptions fsum_error_closed.
 Print Assumptions due_float_exact.
 Print Assumptions tie_needs_512.
 Print Assumptions tie_sharp_512.
-Print Assumptions float_due_is_exact_due.
-Print Assumptions run_agree_src.
-Print Assumptions due_480.
-(* Output of the eight Print Assumptions above (Coq 8.16.1, Flocq 4.1.0):
+Print Assumptions due'_float_exact.
+Print Assumptions run'_float_exact.
+Print Assumptions while'_float_exact.
+Print Assumptions run_float_exact_refuted_test.
+Print Assumptions due'_2560.
+(* Output of the ten Print Assumptions above (Coq 8.16.1, Flocq 4.1.0):
      tie_needs_512:  Closed under the global context
-     all the others: exactly the four axioms of the standard library's classical real numbers -
+     all the others: exactly the four statements the standard library's classical real numbers rest on -
        ClassicalDedekindReals.sig_not_dec : forall P : Prop, {~ ~ P} + {~ P}
        ClassicalDedekindReals.sig_forall_dec
          : forall P : nat -> Prop, (forall n : nat, {P n} + {~ P n}) -> {n : nat | ~ P n} + {forall n : nat, P n}
        FunctionalExtensionality.functional_extensionality_dep
          : forall (A : Type) (B : A -> Type) (f g : forall x : A, B x), (forall x : A, f x = g x) -> f = g
        Classical_Prop.classic : forall P : Prop, P \/ ~ P
-   No axiom of this project, nothing admitted. *)
+   Nothing of this project is assumed, every proof ends with Qed. *)
